@@ -17,6 +17,7 @@
 #include <opm/input/eclipse/EclipseState/EclipseState.hpp>
 #include <opm/input/eclipse/EclipseState/SummaryConfig/SummaryConfig.hpp>
 #include <opm/input/eclipse/EclipseState/Tables/TableManager.hpp>
+#include <opm/input/eclipse/Schedule/UDQ/UDQParams.hpp>
 #include <opm/input/eclipse/Parser/Parser.hpp>
 #include <opm/input/eclipse/Python/Python.hpp>
 #include <opm/input/eclipse/Schedule/Action/ActionResult.hpp>
@@ -224,7 +225,7 @@ int main(int argc, char** argv) {
     { auto bd = parser.parseString(schedgen::base_deck() + "END\n"); g_es = std::make_unique<EclipseState>(bd); }
     auto deep = schedgen::deep_alphabet(); auto broad = schedgen::broad_alphabet();
     const int deep_depth = run.thorough() ? 4 : 3;
-    run.rule = "objects: every Schedule reached by histories over the C03 deep alphabet up to depth " + std::to_string(deep_depth) + " and by prelude T a T b over all ordered pairs of the broad alphabet (every SCHEDULE handler keyword); EclipseState + SummaryConfig of the model deck in 4 unit keywords x feature switches; SummaryState/UDQState/Action::State/WellTestState reached by all update sequences up to length " + std::to_string(run.thorough() ? 4 : 3) + "; RestartValue for all 32 feature subsets; UnitSystem of every family unpacked into objects of every family, observed through parse()/getDimension()/to_si/from_si (the dimension table is derived state); Schedules and SummaryStates with START in 12 years around the time-representation boundaries (1901/1970/2038/2106/2262); TableManager of 60 table families one at a time and in ordered pairs (PLYSHLOG/ROCKTAB are split and merged by hand in serializeOp), each also compared with a twin built from the same deck; invariant per object: pack() sizes its buffer for exactly the bytes it writes and leaves the packed object canonically unchanged, unpack consumes the packed size, canon equal (all serialized members), operator==, public query sweep equal, re-pack same length; Schedules additionally: applying ACTIONX A1 to original and copy gives equal schedules; states = Schedules checked, transitions = future checks";
+    run.rule = "objects: every Schedule reached by histories over the C03 deep alphabet up to depth " + std::to_string(deep_depth) + " and by prelude T a T b over all ordered pairs of the broad alphabet (every SCHEDULE handler keyword); EclipseState + SummaryConfig of the model deck in 4 unit keywords x feature switches; SummaryState/UDQState/Action::State/WellTestState reached by all update sequences up to length " + std::to_string(run.thorough() ? 4 : 3) + "; RestartValue for all 32 feature subsets; UDQParams built from decks with several UDQPARAM seeds (the random stream is rebuilt on unpack and observed by drawing from a copy); UnitSystem of every family unpacked into objects of every family, observed through parse()/getDimension()/to_si/from_si (the dimension table is derived state); Schedules and SummaryStates with START in 12 years around the time-representation boundaries (1901/1970/2038/2106/2262); TableManager of 60 table families one at a time and in ordered pairs (PLYSHLOG/ROCKTAB are split and merged by hand in serializeOp), each also compared with a twin built from the same deck; invariant per object: pack() sizes its buffer for exactly the bytes it writes and leaves the packed object canonically unchanged, unpack consumes the packed size, canon equal (all serialized members), operator==, public query sweep equal, re-pack same length; Schedules additionally: applying ACTIONX A1 to original and copy gives equal schedules; states = Schedules checked, transitions = future checks";
     run.assumptions = {"EclipseState grid and field properties excluded as the statement says", "canon() normalisations (UnitSystem cache, DeckItem raw/SI flag, KeywordLocation)", "byte identity of the re-packed buffer is reported, not required (statement: same length and meaning)"};
 
     std::string only;                                          // replay of one ES / TM case: the enumeration below runs with this filter
@@ -232,7 +233,7 @@ int main(int argc, char** argv) {
         std::istringstream ss(run.replay_path); std::string regime; ss >> regime; std::vector<int> h; int x; while (ss >> x) h.push_back(x);
         if (regime == "deep") { g_alpha = &deep; g_prelude = ""; check_schedule(regime, h); }
         else if (regime == "broad") { g_alpha = &broad; g_prelude = schedgen::prelude_wells(); check_schedule(regime, h); }
-        else if (regime == "TM" || regime == "ES" || regime == "CAL" || regime == "US") { run.nshards = 1; run.shard = 0; only = run.replay_path; }
+        else if (regime == "TM" || regime == "ES" || regime == "CAL" || regime == "US" || regime == "UP") { run.nshards = 1; run.shard = 0; only = run.replay_path; }
         else { run.nshards = 1; dynamic_states(true); }
         if (only.empty()) return run.finish();
     }
@@ -291,6 +292,20 @@ int main(int argc, char** argv) {
                 if (us_obs(y) != us_obs(us) || !(y == us)) run.violation("C11:UnitSystem:unpack-into-other-family", "UnitSystem " + us.getName() + " unpacked into an object constructed as " + UnitSystem(types[other]).getName() + " answers queries differently from the packed one: " + first_diff(us_obs(us), us_obs(y)), "{\"case\": " + vf::jstr(cs) + "}");
             } catch (const std::exception& e) { run.violation("C11:UnitSystem:throws", std::string("pack/unpack throws ") + e.what(), "{\"case\": " + vf::jstr(cs) + "}"); }
         }
+    }
+    // UDQParams built from a deck (UDQPARAM with several seeds): the simulation random stream is state that is not transferred
+    // but rebuilt from the seed on unpack; the unpacked object must draw the same numbers as the packed one
+    for (int seed : {1, 2, 4242}) for (int form = 0; form < 2; ++form) {
+        const std::string cs = "UP " + std::to_string(seed) + " " + std::to_string(form);
+        if (!only.empty() && cs != only) continue;
+        if (!run.mine()) continue;
+        run.current(cs);
+        try {
+            auto deck = parser.parseString("RUNSPEC\nUDQPARAM\n " + std::to_string(seed) + (form ? " 1e10 5.0 1e-3" : "") + " /\n");
+            UDQParams up(deck);
+            auto up_obs = [](const UDQParams& u) { UDQParams c = u; std::string o = std::to_string(c.rand_seed()) + "|" + vf::fmt17(c.range()) + "|" + vf::fmt17(c.undefinedValue()) + "|" + vf::fmt17(c.cmpEpsilon()) + "|" + (c.reseed() ? "R" : "-") + "|"; for (int k = 0; k < 3; ++k) o += std::to_string(c.sim_rng()()) + ","; return o; };
+            roundtrip("UDQParams", up, [] { return std::make_unique<UDQParams>(); }, up_obs, cs);
+        } catch (const std::exception& e) { run.count("udqparams_decks_rejected"); run.notes["udqparams_reject"] = std::string(e.what()).substr(0, 120); }
     }
     // calendar: the same histories with START in years on both sides of every representable-time boundary a packer could have
     // (1901/1902: -2^31 s, 1970: epoch, 2038: 2^31 s, 2106: 2^32 s, 2262: 2^63 ns); 14 monthly steps cross a year boundary
